@@ -373,6 +373,131 @@ def stress(job, ses):
             'restarted': []}
 
 
+def race(job, ses, tmp):
+    """Force the interleaving 'a registration arrives while active_children() evaluates liveness'.
+    Worker 1 is a ThreadWorker subclass whose is_alive(), when called by the observer thread during the armed
+    call, releases a second thread that constructs a worker (or restart()s a dead, already pruned one) and gives it
+    a bounded moment.  In the algorithm of Registry.tla liveness is evaluated inside the lock: the registration waits
+    for the lock and lands after the call.  Either order is a legal behaviour; what is judged is what the next
+    sequential active_children() yields and what autoclose leaves alive once both threads are done."""
+    ThreadWorker, PThread = ses.cls[('thread', False)], ses.cls[('thread', True)]
+    g = {'armed': False, 'observer': None, 'fired': False, 'go': threading.Event(), 'done': threading.Event(),
+         'moment': job.get('moment', 0.15), 'inside': None}
+
+    def is_alive(self):
+        r = ThreadWorker.is_alive(self)
+        if g['armed'] and not g['fired'] and threading.get_ident() == g['observer']:
+            g['fired'] = True
+            g['go'].set()
+            g['inside'] = g['done'].wait(g['moment'])      # True: the registration completed while we were in here
+        return r
+    Gate = type('GateThreadWorker', (ThreadWorker,), {'is_alive': is_alive})
+    notes, calls, autos, flags, ws, live = [], [], [], {}, {}, []
+    foreign = {}
+    finished = False
+
+    def lid(o):
+        for w, x in ws.items():
+            if x is o:
+                return w
+        return foreign.setdefault(id(o), 900 + len(foreign))
+
+    def mk(w, cls, pers=False):
+        ses.nflag += 1
+        if pers:
+            ws[w] = PThread(ses.targets.ident, name='race-%s-%d' % (job['id'], w))
+        else:
+            flags[w] = os.path.join(tmp, 'cflag-%d-%d' % (os.getpid(), ses.nflag))
+            ws[w] = cls(ses.targets.sleeper, args=[flags[w]], name='race-%s-%d' % (job['id'], w))
+        live.append(w)
+
+    def ac(may=None):
+        lb = sorted(live)
+        y = [lid(o) for o in ses.Worker.active_children()]
+        calls.append({'t': 1, 'y': y, 'lb': sorted(set(lb) | set(may or [])), 'la': lb, 'retained': ses.retained(), 'died': 0})
+
+    def body():
+        nonlocal finished
+        try:
+            mk(1, Gate)
+            for w in range(2, 2 + job.get('others', 1)):
+                mk(w, ThreadWorker)
+            new = 2 + job.get('others', 1)
+            if job['action'] == 'restart':
+                mk(new, None, pers=True)
+                ws[new].wait(10)
+                live.remove(new)
+                ac()                                  # prunes the dead persistent worker: restart() has to register it again
+
+            def creator():
+                if not g['go'].wait(10):
+                    notes.append('the gate never fired (is_alive() of worker 1 was not called by the observer)')
+                    return
+                try:
+                    if job['action'] == 'restart':
+                        ws[new].restart()
+                    else:
+                        mk_new()
+                finally:
+                    g['done'].set()
+
+            def mk_new():
+                ses.nflag += 1
+                flags[new] = os.path.join(tmp, 'cflag-%d-%d' % (os.getpid(), ses.nflag))
+                ws[new] = ThreadWorker(ses.targets.sleeper, args=[flags[new]], name='race-%s-%d' % (job['id'], new))
+            th = threading.Thread(target=creator, name='race-creator', daemon=True)
+            th.start()
+            g['observer'] = threading.get_ident()
+            g['armed'] = True
+            before = sorted(live)
+            y = [lid(o) for o in ses.Worker.active_children()]
+            g['armed'] = False
+            th.join(10)
+            if th.is_alive():
+                notes.append('hang: the registering thread did not finish')
+            if new in ws and ws[new].is_alive():
+                live.append(new)
+            # the racing call itself: the new worker may or may not be in it
+            calls.append({'t': 1, 'y': y, 'lb': sorted(set(before) | {new}), 'la': before, 'retained': 0, 'died': 0})
+            notes.append('registration completed inside is_alive() of the observer: %s' % g['inside'])
+            ac()                                      # both threads are done: exactly the live workers
+            with ses.autoclose():
+                pass
+            after = []
+            for w in sorted(live):
+                t0 = time.time()
+                while ws[w].is_alive() and time.time() - t0 < 3.0:
+                    time.sleep(0.002)
+                if ws[w].is_alive():
+                    after.append(w)
+            autos.append({'after': after, 'raised': 'none'})
+            finished = True
+        except BaseException as e:  # noqa
+            notes.append('aborted: %r' % (e,))
+    bt = threading.Thread(target=body, name='race-body', daemon=True)
+    bt.start()
+    bt.join(HIST_BOUND)
+    if bt.is_alive():
+        notes.append('hang in the race scenario')
+    for f in flags.values():
+        try:
+            open(f, 'w').close()
+        except OSError:
+            pass
+    for w, o in list(ws.items()):
+        try:
+            if o.is_alive() and not o.wait(2):
+                o.terminate()
+        except Exception as e:  # noqa
+            notes.append('cleanup of %d: %r' % (w, e))
+        ses.dead_refs.append(weakref.ref(o))
+    ws.clear()
+    rec = {'id': str(job['id']), 'scn': {'n': 2 + job.get('others', 1), 'kinds': {'*': 'thread'}, 'race': job['action']},
+           'obs': {'calls': calls, 'autos': autos}}
+    return {'id': job['id'], 'rec': rec, 'notes': notes, 'finished': finished, 'reglens': [ses.reglen()],
+            'restarted': [], 'inside': g['inside']}
+
+
 def runner_main(jobfile, outfile):
     parent_watchdog()
     with open(jobfile) as f:
@@ -386,6 +511,8 @@ def runner_main(jobfile, outfile):
             if j.get('type') == 'stress':
                 j['tmp'] = tmp
                 results.append(stress(j, ses))
+            elif j.get('type') == 'race':
+                results.append(race(j, ses, tmp))
             else:
                 results.append(RegReplay(j, ses, tmp).run())
             if len(results) % 8 == 0:
@@ -485,7 +612,7 @@ def run(prop, tier, replay=None):
     ev.add_tlc('liveness: every active_children() call returns', rl)
     if rl.error:
         raise MachineryError('Live_CallReturns fails in the model: %s' % rl.error)
-    for w in ('W_NoPrune', 'W_NoRestartAfterPrune', 'W_NoConcurrentDeath', 'W_NoTwoCallers'):
+    for w in ('W_NoPrune', 'W_NoRestartAfterPrune', 'W_NoConcurrentDeath', 'W_NoTwoCallers', 'W_NoCreateDuringCall'):
         rw = tlc.run('RegistryMC', cfg_text=_cfg('Registry_mc.cfg', inv=[w]), name=w, must_complete=False)
         if rw.error != 'invariant:' + w:
             raise MachineryError('witness %s not reachable (vacuous model): %s' % (w, rw.error))
@@ -498,6 +625,10 @@ def run(prop, tier, replay=None):
     if not (rr.error or '').startswith('invariant:Inv_C19'):
         raise MachineryError('prune fixed but register_child still skipped on restart: not rejected by the model checker: %s' % rr.error)
     wit['prune_fixed_restart_not_registered_model'] = rr.error
+    ro = tlc.run('RegistryMC', cfg_text=_cfg('Registry_mc.cfg', inv=['Inv_C19_Exact'], PruneOutsideLock='TRUE'), name='outsidelock', must_complete=False)
+    if ro.error != 'invariant:Inv_C19_Exact':
+        raise MachineryError('liveness evaluated between two lock sections (a racing registration is overwritten): not rejected by the model checker: %s' % ro.error)
+    wit['prune_outside_lock_model'] = ro.error
     ev.cov['witnesses'] = wit
     ev.cov['phase_s'] = {'model_checking': T.s()}
 
@@ -508,7 +639,7 @@ def run(prop, tier, replay=None):
         raise MachineryError('path dump failed: ' + rpaths.error)
     paths = [(_tla_seq(hs), _tla_seq(ys), rl_) for hs, ys, rl_ in rpaths.tags.get('PATH', [])]
     n_exh = len(paths)
-    cap = 4000 if quick else 40000
+    cap = 3000 if quick else 40000
     sel = paths if len(paths) <= cap else rng.sample(paths, cap)
     jobs, expect = [], {}
 
@@ -533,6 +664,12 @@ def run(prop, tier, replay=None):
         jobs.append(long_history(rng, 'L%d' % k, 120 if quick else 400, heavy=(k % 7 == 0)))
     for k in range(2 if quick else 8):
         jobs.append({'id': 'S%d' % k, 'type': 'stress', 'seed': rng.randrange(10 ** 6), 'creations': 150 if quick else 600})
+    nrace = 0
+    for k in range(5 if quick else 20):
+        for action in ('create', 'restart'):
+            for others in (0, 1, 2):
+                jobs.append({'id': 'R%d' % nrace, 'type': 'race', 'action': action, 'others': others, 'moment': 0.15 if quick else 0.3})
+                nrace += 1
     ev.cov['phase_s']['path_dumps'] = T.s()
     order = sorted(jobs, key=lambda j: (0 if j.get('long') or j.get('type') else 1, j['id']))
     results = run_jobs(order, 14, 'C19', 75 if quick else 1500, module='vf.drivers.registry')
@@ -553,7 +690,9 @@ def run(prop, tier, replay=None):
         extra, missing, dup, left = classify(res['rec'], res['restarted'])
         sig = 'C19|clauses=%s|extra=%s|missing=%s|dup=%s|autoleft=%s' % ('+'.join(sorted(clauses)), extra, missing, dup, left)
         j = jb[rid]
-        desc = 'history %s' % [s[:2] if s[0] != 'create' else s for s in j['h']][:14] if 'h' in j else 'two-caller stress run'
+        desc = 'history %s' % [s[:2] if s[0] != 'create' else s for s in j['h']][:14] if 'h' in j else \
+            ('forced race: %s by a second thread while active_children() evaluates is_alive() (%d other live workers); %s'
+             % (j['action'], j['others'], res['notes'][-1:]) if j.get('type') == 'race' else 'two-caller stress run')
         first = next((c for c in res['rec']['obs']['calls'] if set(c['y']) != set(c['lb'])), None)
         if first is not None:
             first = {k: (v[:8] + ['... %d more' % (len(v) - 8)] if isinstance(v, list) and len(v) > 8 else v) for k, v in first.items()}
@@ -588,6 +727,17 @@ def run(prop, tier, replay=None):
     ev.cov['active_children_calls_judged'] = ncalls
     ev.cov['max_registry_length_seen'] = maxreg
     ev.cov['replay_mismatches'] = mism
+    races = [byid[j['id']] for j in jobs if j.get('type') == 'race' and j['id'] in byid]
+    inside = sum(1 for r_ in races if r_.get('inside'))
+    ev.cov['forced_registration_races'] = {'run': len(races), 'registration_completed_inside_the_liveness_evaluation': inside,
+                                           'registration_waited_for_the_lock': sum(1 for r_ in races if r_.get('inside') is False)}
+    if inside and not any(v.replay.get('type') == 'race' for v in violations):
+        drift.append('%d of %d forced races: a registration completed while active_children() was evaluating is_alive() '
+                     '(Registry.tla evaluates liveness inside the lock)' % (inside, len(races)))
+    for r_ in races:
+        if not r_['finished'] and r_['id'] not in failing:
+            drift.append('forced race %s did not finish: %s' % (r_['id'], r_['notes'][:3]))
+            break
     ev.cov['replays_with_process_or_remote'] = sum(1 for j in jobs if j['id'] in byid and any(k != 'thread' for k in j.get('kinds', {}).values()))
     for j in jobs[:1] + [j for j in jobs if any(k != 'thread' for k in j.get('kinds', {}).values())][:1]:
         ev.sample({'history': j['h'], 'kinds': j['kinds'], 'calls': byid[j['id']]['rec']['obs']['calls'] if j['id'] in byid else None})
